@@ -146,3 +146,23 @@ func ZZ_C11_DeleteSnapshotGate() {
 	}
 	zzAssert(c.ZZLockDepth() == 0, "C11.delete-gate.lock-left-held")
 }
+
+// C09 (the registration request as it arrives over REST): the revision count a replica
+// sends as decimal text is what the controller records and elects on, for every count a
+// 64-bit counter can hold.
+func ZZ_C09_RegisterHandler() {
+	c := controller.ZZEmptyController(3)
+	s := NewServer(c)
+	zzReadMode = 0
+	rev := zzNondetInt64("rev")
+	zzAssume(rev >= 0)
+	zzRegOverride, zzRegHost, zzRegRev = true, controller.ZZHost(0), zzDecStr(rev)
+	err := s.RegisterReplica(&zzRW{}, zzRequest())
+	zzRegOverride = false
+	zzAssert(err == nil, "C09.rest.registration-refused")
+	got, ok := c.ZZRegisteredRev(controller.ZZHost(0))
+	zzAssert(ok, "C09.rest.registration-not-recorded")
+	zzAssert(got == rev, "C09.rest.recorded-revision-count-differs-from-the-one-sent")
+	zzAssert(c.ZZLockDepth() == 0, "C09.rest.lock-left-held")
+	zzReach("C09.rest.registered")
+}
